@@ -92,7 +92,7 @@ structure ClassInfo where
   kind : Kind
   dictInst : List (Name × ClsId)
   dictCls : List (Name × Val)
-deriving Repr
+deriving DecidableEq, Repr
 
 abbrev ClassTable := List ClassInfo
 
@@ -134,10 +134,25 @@ def mapSt {σ α β : Type} (f : σ → α → Option (σ × β)) : σ → List 
 
 /-! ### Instantiation (`MetaCreator.__init__` / `init_type`, creator.py:99-134) -/
 
+/-- The name under which `ConstrainedFitness` keeps its flags (`constraint_violation`). -/
+def cvName : Name := 0
+
+/-- Python `None` as an atom (the harness interns atoms by hash; this is the hash of `None`). -/
+def noneAtom : Int := 889999991811
+
+/-- State that `base.__init__`, called by `init_type` after the `dict_inst` attributes are set
+(creator.py:125-126), puts on a new instance: `ConstrainedFitness.__init__` sets
+`constraint_violation = None` (base.py). -/
+def baseInitAttrs : Kind → List (Name × Val)
+  | .cfitness => [(cvName, .atom noneAtom)]
+  | _ => []
+
 /-- `cls(items)`: a new object whose per-instance attributes are built by *calling* the types in
 `dict_inst` (creator.py:120-124: `setattr(self, obj_name, obj())`), each call being itself an
-instantiation.  Fuel = nesting depth of classes (a class can only mention classes created before
-it, so `ct.length` always suffices). -/
+instantiation; then `base.__init__` runs (creator.py:125-126) and writes `baseInitAttrs` over them
+(`dictUpdate`: a `dict_inst` attribute of a `ConstrainedFitness` class that is itself called
+`constraint_violation` ends up `None`, as in Python).  Fuel = nesting depth of classes (a class can
+only mention classes created before it, so `ct.length` always suffices). -/
 def newInst (ct : ClassTable) : Nat → State → ClsId → List Val → Option (State × Oid)
   | 0, _, _, _ => none
   | n + 1, st, c, items =>
@@ -152,10 +167,14 @@ def newInst (ct : ClassTable) : Nat → State → ClsId → List Val → Option 
           | some (s', y) => some (s', (p.1, Val.ref y))) st ci.dictInst with
       | none => none
       | some (st, attrs) =>
-        let o : Obj := { cls := c, items := items, attrs := attrs, mutable := ci.kind != .node }
+        let o : Obj := { cls := c, items := items, attrs := dictUpdate attrs (baseInitAttrs ci.kind),
+                         mutable := ci.kind != .node }
         some ({ st with objs := define st.objs x o }, x)
 
-/-- Only the attribute part of `init_type` (used when a copy hook calls the class). -/
+/-- Only the `dict_inst` part of `init_type` (used when a copy or pickle hook calls the class to make
+the object that is being rebuilt: whatever `base.__init__` puts on that object itself is then
+overwritten by the copied state — for a `ConstrainedFitness` by the copied `constraint_violation`,
+which `selectAttrs` requires to be present).  The nested instances are full `newInst`s. -/
 def instAttrs (ct : ClassTable) (st : State) (dictInst : List (Name × ClsId)) :
     Option (State × List (Name × Val)) :=
   mapSt (fun s (p : Name × ClsId) =>
@@ -178,10 +197,29 @@ def getattr (ct : ClassTable) (objs : Oid → Option Obj) (x : Oid) (name : Name
       | none => none
       | some ci => lookup name ci.dictCls
 
-/-! ### `copy.deepcopy` with the hooks of DEAP -/
+/-! ### Pickling of the created *classes* (`MetaCreator.__reduce__`, `meta_create`, creator.py:130-140) -/
 
-/-- The name under which `ConstrainedFitness` keeps its flags. -/
-def cvName : Name := 0
+/-- The module `deap.creator`: the classes that exist (`ClassTable`, index = identity of the class
+object) and the names bound in the module's globals (`globals()[name] = class_`). -/
+structure Module where
+  classes : ClassTable
+  bound : List (Name × ClsId)
+
+/-- `MetaCreator.__reduce__` (creator.py:130-131): a class pickles BY VALUE as
+`(meta_create, (name, base, dct))`; in the model `(name, ClassInfo)` (base and dct determine kind,
+`dict_inst` and `dict_cls`).  `name` is the class' `__name__`. -/
+def classReduce (m : Module) (c : ClsId) (name : Name) : Option (Name × ClassInfo) :=
+  (m.classes[c]?).map (fun ci => (name, ci))
+
+/-- `meta_create(name, base, dct)` (creator.py:137-140): ALWAYS builds a new class from the pickled
+description and rebinds the name; whatever was bound to that name before is neither consulted nor
+changed (the old class object lives on, so do its instances). -/
+def metaCreate (m : Module) (name : Name) (ci : ClassInfo) : Module × ClsId :=
+  ({ classes := m.classes ++ [ci],
+     bound := (name, m.classes.length) :: m.bound.filter (fun p => p.1 != name) },
+   m.classes.length)
+
+/-! ### `copy.deepcopy` with the hooks of DEAP -/
 
 /-- Which part of `__dict__` the hook copies: `Fitness` none of it (base.py:259-260 copies
 `wvalues` only), `ConstrainedFitness` exactly `constraint_violation` (AttributeError ↦ `none` when
